@@ -213,8 +213,11 @@ def showItems (sel : Selected) (cnt : Nat) (sse : Bool) (ra rb : Bytes) : String
 
 def handleE2E (i o : List String) : String :=
   match i, o with
-  | [rpc, inj, err, gone, _ct, acc, body, rbp, tmo, n, resp, md],
+  | rpc :: inj :: err :: gone :: _ct :: acc :: body :: rbp :: tmo :: n :: resp :: md :: methTail,
     [st, ct, xcto, obody, ds, dm, hdr, trl, pm, fe, nat, tr, u8, late] =>
+    -- optional 13th input field `meth=<METHOD>[*]`: the HTTP method of the request and whether the binding has a body.
+    -- It is NOT an input of the model (C10_negotiation_method_independent): the expected response is the same.
+    if !(methTail.isEmpty || (methTail.length == 1 && (methTail.head?.bind (kv? "meth")).isSome)) then "BAD e2e arity" else
     let parsed : Option (Scenario × Env × Obs × Bytes × Bytes × String × Option (String × Bool × Bytes)) := do
       let rpc ← (kv? "rpc" rpc) >>= parseRpc?
       let inj ← (kv? "inj" inj) >>= parseInj?
@@ -454,7 +457,9 @@ def optExpect (r : Registry) (pm : List (Option Bytes)) (acc : List Bytes) (sc :
 
 def handleOpts (i o : List String) : String :=
   match i, o with
-  | [os, ct, acc, sc], [st, oct, codec, ds, dm, pm] =>
+  | os :: ct :: acc :: sc :: methTail, [st, oct, codec, ds, dm, pm] =>
+    -- optional 5th input field `m=<METHOD>[*]`: not an input of the model (C10_negotiation_method_independent)
+    if !(methTail.isEmpty || (methTail.length == 1 && (methTail.head?.bind (kv? "m")).isSome)) then "BAD opts arity" else
     let parsed : Option (List BOpt × List Bytes × OptSc × Nat × Option (List Bytes) × String × String × String × List (Option Bytes)) := do
       let opts ← (kv? "o" os) >>= parseBOpts
       let _ ← (kv? "ct" ct) >>= hexList?
